@@ -253,8 +253,43 @@ func (g *GenCtx) Gen(d *Desc, v reflect.Value, ft string) {
 			return
 		}
 		g.genDict(v)
+	case KOpaque:
+		// a few unmodelled codecs whose zero value is outside their domain get a minimal in-domain value
+		switch baseName(v.Type()) {
+		case "tlb.Hashmap": // hm_edge: at least one entry
+			g.genDictInto(v, 1)
+		case "wallet.PayloadHighload":
+			n := g.Rng.Intn(4)
+			if n == 0 {
+				return
+			}
+			s := reflect.MakeSlice(v.Type(), n, n)
+			for i := 0; i < n; i++ {
+				s.Index(i).FieldByName("Message").Set(reflect.ValueOf(g.RandCell(200, 1, 1)))
+				s.Index(i).FieldByName("Mode").SetUint(uint64(g.Rng.Intn(256)))
+			}
+			v.Set(s)
+		case "wallet.W5ExtendedActions":
+			n := 1 + g.Rng.Intn(3)
+			s := reflect.MakeSlice(v.Type(), n, n)
+			ed := g.U.Describe(v.Type().Elem())
+			for i := 0; i < n; i++ {
+				g.Gen(ed, s.Index(i), "p")
+			}
+			v.Set(s)
+		default:
+			// decode-side custom codec over a plain struct (BlockInfo, ShardState, …): Marshal goes through the
+			// reflection codec, so the value is generated field by field
+			if v.Kind() == reflect.Struct && v.Type() != bitStringT && !openTypes[baseName(v.Type())] {
+				if raw := g.U.RawStruct(v.Type()); raw.Kind == KSum {
+					g.genSum(raw, v, TypeName(v.Type()))
+				} else {
+					g.genStruct(raw, v)
+				}
+			}
+		}
 	default:
-		// opaque / unsupported / enc-not-implemented: the zero value
+		// unsupported / enc-not-implemented: the zero value
 	}
 }
 
@@ -508,13 +543,15 @@ func (g *GenCtx) genMsgAddress(v reflect.Value) {
 }
 
 // genDict fills a HashmapE with 1..3 entries; keys distinct and ordered by their encoded bits.
-func (g *GenCtx) genDict(v reflect.Value) {
-	m := access(v.FieldByName("m"))
+func (g *GenCtx) genDict(v reflect.Value) { g.genDictInto(access(v.FieldByName("m")), 1) }
+
+// genDictInto fills a tlb.Hashmap value
+func (g *GenCtx) genDictInto(m reflect.Value, min int) {
 	keys := access(m.FieldByName("keys"))
 	vals := access(m.FieldByName("values"))
 	kd := g.U.Describe(keys.Type().Elem())
 	vd := g.U.Describe(vals.Type().Elem())
-	n := 1 + g.Rng.Intn(3)
+	n := min + g.Rng.Intn(3)
 	type ent struct {
 		bits string
 		k, v reflect.Value
